@@ -140,6 +140,9 @@ pub struct IterSpec {
     pub loose: Option<u16>,
     #[serde(default, skip_serializing_if = "Option::is_none")]
     pub fx: Option<Fx>,
+    /// lying UPPER bound of size_hint (None: honest): the iterator may well yield more items than it announces
+    #[serde(default, skip_serializing_if = "Option::is_none")]
+    pub upper: Option<usize>,
 }
 
 #[derive(Clone, Debug, PartialEq, Eq, Hash, Serialize, Deserialize)]
